@@ -328,6 +328,44 @@ func execOp(s *Sexp) string {
 		return execJRT(s)
 	case "jdeep":
 		return execJDeep(s)
+	case "internmany":
+		// (internmany N): N distinct values, then a sample of them again, through ONE interned field
+		// (far more distinct values than the histories the model follows): oracle only
+		n, err := strconv.Atoi(arg(1))
+		if err != nil || n < 1 || n > 200000 {
+			return "bad-op"
+		}
+		return guard(func() string {
+			p := &plenc.Plenc{}
+			p.RegisterDefaultCodecs()
+			bad := 0
+			first := ""
+			decode := func(i int) {
+				d := []byte(fmt.Sprintf("value-%06d", i))
+				buf := append(refTag(1, 2), lenPrefixed(d)...)
+				var v internStr
+				if err := p.Unmarshal(buf, &v); err != nil || v.S != string(d) {
+					bad++
+					if first == "" {
+						first = fmt.Sprintf("value %d decoded as %q (err %v)", i, v.S, err)
+					}
+				}
+				for k := range buf {
+					buf[k] = 0xAA
+				}
+			}
+			for i := 0; i < n; i++ {
+				decode(i)
+			}
+			for i := 0; i < n; i += 1 + n/64 {
+				decode(i)
+			}
+			decode(n + 1)
+			if bad > 0 {
+				return fmt.Sprintf("ok wrong=%d first: %s", bad, first)
+			}
+			return "ok wrong=0"
+		})
 	case "declong":
 		// (declong cfgE cfgD KIND N): a value with N elements / entries is written by one configuration and
 		// read by another; far too long for the model (its decoder is quadratic): oracle only
